@@ -72,6 +72,7 @@ class FakeConn:
         self.stream = b""
         self.caps = []
         self.closed = False
+        self.queue = []          # session mode: (reply bytes, caps) appended to the stream when a request is written
 
     def script(self, stream, caps):
         self.sent = []
@@ -80,6 +81,10 @@ class FakeConn:
 
     def send(self, data):
         self.sent.append(bytes(data))
+        if self.queue:
+            reply, caps = self.queue.pop(0)
+            self.stream += reply
+            self.caps += list(caps)
         return len(data)
 
     def recv(self, n):
@@ -271,6 +276,87 @@ def run(ctx):
         inner = inner_of(ak)
         reqs.append("sign %s %s %s %s %s %s" % (hx(ak.blob), "none" if inner is None else hx(inner), hx(data),
                                                alg_tok(alg), hx(stream), ",".join(map(str, caps)) or "-"))
+    # ---------------------------------------------------------------- sequences of requests on ONE connection
+    def gen_reply():
+        """(kind, stream bytes, expected: ('sig', bytes) | 'raise' | None = not judged)"""
+        r = rng.random()
+        sig = rand_sig()
+        if r < 0.45:
+            return "good", framed(b"\x0e" + sstr(sig)), ("sig", sig)
+        if r < 0.6:
+            t = rng.choice([x for x in range(256) if x != 14])
+            return "other-type", framed(bytes([t]) + sstr(sig)), "raise"
+        if r < 0.85:
+            # announces far more than it delivers; what it delivers looks like a complete signature reply
+            forged = framed(b"\x0e" + sstr(rng.randbytes(rng.randrange(0, 12))))
+            size = rng.choice([262145, 300000, 1 << 20, (1 << 31) + 5, (1 << 32) - 1, len(forged) + 1])
+            return "over-announced", struct.pack(">I", size) + forged[:rng.choice([len(forged), len(forged), 5, 0])], "raise"
+        if r < 0.93:
+            good = framed(b"\x0e" + sstr(sig))
+            return "trailing-bytes", good + rng.randbytes(rng.randrange(1, 9)), None
+        return "truncated-string", framed(b"\x0e" + struct.pack(">I", len(sig) + 3) + sig), None
+
+    sessions = []
+    for i in range(3000 if ctx.thorough else 500):
+        steps = []
+        for _ in range(rng.randrange(2, 6)):
+            kind, st, exp = gen_reply()
+            caps_ = [rng.randrange(1, 9) for _ in range(rng.randrange(0, 6))] if rng.random() < 0.5 else []
+            steps.append((rng.randrange(len(keys)), rng.choice(algs), rand_data(), kind, st, caps_, exp))
+        if i == 0:   # oversized announcement followed by a normal exchange
+            forged = framed(b"\x0e" + sstr(b"FORGED"))
+            steps = [(0, None, b"first", "over-announced", struct.pack(">I", 300000) + forged, [], "raise"),
+                     (0, "rsa-sha2-512", b"second", "good", framed(b"\x0e" + sstr(b"REAL-SIG")), [], ("sig", b"REAL-SIG"))]
+        sessions.append(steps)
+    sreqs = []
+    for steps in sessions:
+        toks = []
+        for ki, alg, data, _kind, st, caps_, _exp in steps:
+            ak = agent_keys[ki]
+            inner = inner_of(ak)
+            toks.append("/".join([hx(ak.blob), "none" if inner is None else hx(inner), hx(data), alg_tok(alg), hx(st),
+                                  ",".join(map(str, caps_)) or "-"]))
+        sreqs.append("signseq " + " ".join(toks))
+    sreplies = ctx.driver("C45", sreqs)
+    for si, steps in enumerate(sessions):
+        conn.script(b"", [])
+        conn.queue = [(st, caps_) for _ki, _alg, _data, _kind, st, caps_, _exp in steps]
+        outs = []
+        judged = True
+        case = {"requests_on_one_connection": [{"key": keys[ki][0], "algorithm": alg, "reply_kind": kind,
+                                                "reply_stream": st.hex()[:80], "caps": caps_}
+                                               for ki, alg, _d, kind, st, caps_, _e in steps]}
+        for j, (ki, alg, data, kind, st, caps_, exp) in enumerate(steps):
+            ctx.dist("session-reply:" + kind)
+            try:
+                res = agent_keys[ki].sign_ssh_data(data, alg)
+                outs.append("ok " + hx(res))
+            except SSHException as e:
+                res = None
+                outs.append("err lost" if "lost ssh-agent" in str(e) else "err nosign")
+            except Exception as e:
+                ctx.fail("escaped:" + exc_site(e), dict(case, at_request=j), repr(e))
+                outs.append("raise")
+                judged = False
+                break
+            # oracle: the answer to request j is the agent's reply to request j (or an exception)
+            if exp is None:
+                judged = False          # the agent itself broke the framing: later requests are not judged
+            if judged:
+                if exp == "raise" and res is not None:
+                    ctx.fail("reply-of-another-request-accepted", dict(case, at_request=j),
+                             "request %d was answered with %s (%r) but returned %s" % (j, kind, st.hex()[:60], res.hex()))
+                elif exp != "raise" and res != exp[1]:
+                    ctx.fail("reply-attributed-to-wrong-request", dict(case, at_request=j),
+                             "request %d: the agent replied signature %s, sign_ssh_data returned %s"
+                             % (j, exp[1].hex(), "an exception (%s)" % outs[-1] if res is None else res.hex()))
+        conn.queue = []
+        ctx.case(("session", si, tuple(k for _a, _b, _c, k, _d, _e, _f in steps)), True)
+        impl = " ; ".join(outs) + " || " + hx(conn.stream)
+        if sreplies is not None and outs and outs[-1] != "raise" and sreplies[si] != impl:
+            ctx.disagree("sign_ssh_data x n on one connection", case, sreplies[si][:300], impl[:300])
+    conn.script(b"", [])
+
     replies = ctx.driver("C45", reqs)
     flag_reqs = ["flag " + alg_tok(a) for a in algs]
     flag_replies = ctx.driver("C45", flag_reqs)
@@ -386,7 +472,11 @@ META = {
               "flag_sha256_iff, flag_sha512_iff, flag_values) — over the flag table GENERATED from agent.py on every "
               "run; a signature is returned iff a complete type-14 reply arrived and is its string field unchanged, "
               "anything else is an SSHException (sign_ok_iff, sign_result_cases, well_framed_reply, "
-              "signature_unchanged), independent of how recv fragments the stream (readAll_complete). Tied to "
+              "signature_unchanged), independent of how recv fragments the stream (readAll_complete); on ONE connection "
+              "used for several requests each step is the one-shot call against leftover ++ reply (signStep_fst), a "
+              "well-framed reply is consumed exactly and leaves the connection clean (well_framed_step), and a request "
+              "that ends in 'lost ssh-agent' — e.g. a length prefix announcing more than is delivered — leaves nothing "
+              "behind, so the next request reads its own reply (lost_leaves_nothing). Tied to "
               "agent.py by byte-exact differential runs on every check."),
     "note": ("Trusted: Lean kernel + 3 standard axioms; the generator of PV/Generated/C45.lean (dict -> list literal); "
              "the harness; struct big-endian packing; inner_key.asbytes() (key parsing by the key classes) is a model "
